@@ -171,7 +171,7 @@ theorem sweepSecond_eq (sc : Scripts) (w : World) :
       | h :: _ => if h.delta == 0 then visit sc (slotOf (w.cot + 1)) (((decHead w).slots (slotOf (w.cot + 1))).length) (decHead w)
                   else decHead w := by
   unfold sweepSecond decHead
-  simp only [tie_sweepOrder.1, tie_sweepOrder.2, if_true, tie_sweepSlot, tie_headDue]
+  simp only [tie_sweepOrder.1, tie_sweepOrder.2, if_true, tie_sweepSlot, tie_headDue, tie_headDec]
   cases hl : w.slots (slotOf (w.cot + 1)) with
   | nil => simp [hl]
   | cons h rest => simp [setSlot]
